@@ -1,0 +1,120 @@
+//go:build verif
+
+package collection
+
+import (
+	"fmt"
+
+	"github.com/tidwall/tile38/internal/object"
+)
+
+// VerifAudit walks the four indexes of the collection and recomputes the
+// counters from the objects actually stored. It returns one line per
+// inconsistency. Only compiled with the "verif" build tag.
+func (c *Collection) VerifAudit() []string {
+	var errs []string
+	var objects, nobjects, points, weight int
+	ids := map[string]*object.Object{}
+	c.objs.Scan(func(id string, o *object.Object) bool {
+		if id != o.ID() {
+			errs = append(errs, fmt.Sprintf("objs: key %q holds object %q", id, o.ID()))
+		}
+		ids[id] = o
+		if o.IsSpatial() {
+			objects++
+		} else {
+			nobjects++
+		}
+		points += o.Geo().NumPoints()
+		weight += o.Weight()
+		return true
+	})
+	if objects != c.objects {
+		errs = append(errs, fmt.Sprintf("objects counter %d, recomputed %d", c.objects, objects))
+	}
+	if nobjects != c.nobjects {
+		errs = append(errs, fmt.Sprintf("nobjects counter %d, recomputed %d", c.nobjects, nobjects))
+	}
+	if points != c.points {
+		errs = append(errs, fmt.Sprintf("points counter %d, recomputed %d", c.points, points))
+	}
+	if weight != c.weight {
+		errs = append(errs, fmt.Sprintf("weight counter %d, recomputed %d", c.weight, weight))
+	}
+	// spatial index: exactly the spatial objects with a non-empty geometry,
+	// each being the current object, with its current rectangle.
+	nspatial := 0
+	c.spatial.Scan(func(min, max [2]float32, o *object.Object) bool {
+		nspatial++
+		cur := ids[o.ID()]
+		if cur != o {
+			errs = append(errs, fmt.Sprintf("spatial: stale or foreign entry %q", o.ID()))
+			return true
+		}
+		emin, emax, _ := rtreeItem(o)
+		if emin != min || emax != max {
+			errs = append(errs, fmt.Sprintf("spatial: entry %q has rect %v %v, want %v %v", o.ID(), min, max, emin, emax))
+		}
+		return true
+	})
+	wantSpatial := 0
+	for _, o := range ids {
+		if o.IsSpatial() && !o.Geo().Empty() {
+			wantSpatial++
+		}
+	}
+	if nspatial != wantSpatial {
+		errs = append(errs, fmt.Sprintf("spatial: %d entries, want %d", nspatial, wantSpatial))
+	}
+	if nspatial != c.spatial.Len() {
+		errs = append(errs, fmt.Sprintf("spatial: Len %d, scanned %d", c.spatial.Len(), nspatial))
+	}
+	// values index: exactly the non-spatial objects
+	nvalues := 0
+	var prev *object.Object
+	c.values.Scan(func(o *object.Object) bool {
+		nvalues++
+		if ids[o.ID()] != o {
+			errs = append(errs, fmt.Sprintf("values: stale or foreign entry %q", o.ID()))
+		} else if o.IsSpatial() {
+			errs = append(errs, fmt.Sprintf("values: spatial object %q", o.ID()))
+		}
+		if prev != nil && !byValue(prev, o) {
+			errs = append(errs, fmt.Sprintf("values: order broken at %q", o.ID()))
+		}
+		prev = o
+		return true
+	})
+	if nvalues != nobjects {
+		errs = append(errs, fmt.Sprintf("values: %d entries, want %d", nvalues, nobjects))
+	}
+	// expires index: exactly the objects with a deadline
+	nexp := 0
+	prev = nil
+	c.expires.Scan(func(o *object.Object) bool {
+		nexp++
+		if ids[o.ID()] != o {
+			errs = append(errs, fmt.Sprintf("expires: stale or foreign entry %q", o.ID()))
+		} else if o.Expires() == 0 {
+			errs = append(errs, fmt.Sprintf("expires: object %q has no deadline", o.ID()))
+		}
+		if prev != nil && !byExpires(prev, o) {
+			errs = append(errs, fmt.Sprintf("expires: order broken at %q", o.ID()))
+		}
+		prev = o
+		return true
+	})
+	wantExp := 0
+	for _, o := range ids {
+		if o.Expires() != 0 {
+			wantExp++
+		}
+	}
+	if nexp != wantExp {
+		errs = append(errs, fmt.Sprintf("expires: %d entries, want %d", nexp, wantExp))
+	}
+	if len(ids) == 0 {
+		errs = append(errs, "empty collection")
+	}
+	return errs
+}
